@@ -58,8 +58,17 @@ class Bare_import_one:
                             and commit_parent(repo_head(self.repo)) == old(repo_head(self.repo))))
 
 
+def repo_unchanged_but_objects(self):
+    """Reads may add the (empty) tree object to the store; nothing observable changes."""
+    return (self.ghost_M == old(self.ghost_M)
+            and repo_head(self.repo) == old(repo_head(self.repo))
+            and repo_ncommits(self.repo) == old(repo_ncommits(self.repo))
+            and forall("bytes", lambda o: implies(o in old(repo_objects(self.repo)), o in repo_objects(self.repo))))
+
+
 @contract("xandikos.store.git.BareGitStore._get_etag",
-          params={"self": "obj:xandikos.store.git.BareGitStore", "name": "str"}, returns="str")
+          params={"self": "obj:xandikos.store.git.BareGitStore", "name": "str"}, returns="str",
+          modifies=["self.repo"], modifies_on_raise=["self.repo"])
 class Bare_get_etag:
     """Refines GitStore._get_etag with ghost_M = bare_view(self)."""
 
@@ -70,7 +79,10 @@ class Bare_get_etag:
         return name not in self.ghost_M
 
     def ensures(self, name, result):
-        return result == self.ghost_M[name]
+        return result == self.ghost_M[name] and repo_unchanged_but_objects(self)
+
+    def ensures_raise(self):
+        return repo_unchanged_but_objects(self)
 
 
 @contract("xandikos.store.git.BareGitStore.get_ctag",
@@ -94,7 +106,7 @@ class Bare_get_ctag:
 @contract("xandikos.store.git.BareGitStore.delete_one",
           params={"self": "obj:xandikos.store.git.BareGitStore", "name": "str", "message": "opt[str]",
                   "author": "opt[str]", "etag": "opt[str]"},
-          modifies=["self.repo"])
+          modifies=["self.repo"], modifies_on_raise=["self.repo"])
 class Bare_delete_one:
     def requires(self, name, etag):
         # etag arguments are object ids (ASCII hex) taken from an earlier listing (call sites:
@@ -109,6 +121,10 @@ class Bare_delete_one:
 
     def ensures(self, name):
         return self.ghost_M == old(self.ghost_M).without(name)
+
+    def ensures_raise(self):
+        # a refused delete changes nothing (C01/C03)
+        return repo_unchanged_but_objects(self) and rep_bare(self.repo)
 
     def ensures_history(self, name):
         return (rep_bare(self.repo)
